@@ -47,7 +47,7 @@ E1 = {
 }
 
 E1_RULE = {
-    "C01": "cases = op histories (bounded-exhaustive depth<=D from 16 start states with every drop order of <=3 survivors, plus seeded random walks of 30-150 ops); after every op every live handle is compared with its Vec<u8> model. A cell = (handle type | backing representation incl. refcount class | op | argument class | outcome); cells of pure drop ops are not counted.",
+    "C01": "cases = op histories (bounded-exhaustive depth<=D from 16 start states with every drop order of <=3 survivors, plus seeded short histories of 3-6 ops from a start state and random walks of 30-150 ops); after every op every live handle is compared with its Vec<u8> model. A cell = (handle type | backing representation incl. refcount class | op | argument class | outcome); cells of pure drop ops are not counted.",
     "C02": "same histories with out-of-contract arguments mixed in (1/4 of ops), run on the ledger allocator (red zones, poison+quarantine, layout-exact free, address-range check of every handle after every op; even/odd/mixed address parity), under ASan, Miri and (thorough) valgrind. Cells as in C01 plus OOC|repr|variant|outcome.",
     "C03": "same histories; at the end of each history survivors are dropped (every order for <=3 survivors in the exhaustive part) and the ledger balance of blocks allocated during the history must be 0; refcount conservation (stored count == live handles per control block, via H2) and owner as_ref/drop counters checked after every op; LSan and Miri leak checks on the same workload.",
     "C04": "BytesMut-centred histories; after every op all BytesMut regions [ptr,ptr+cap) are checked pairwise disjoint, disjoint from every live Bytes, and contained in one live ledger block; reserve/try_reclaim postconditions with boundary arguments (0, spare+-1, alloc-len(+1), alloc, 2*alloc+1); periodic write probes fill spare capacity and re-compare every other handle; unrepresentable requests (usize::MAX-len-k, isize::MAX+1+k) must panic / answer false; 144 abort-class requests (2^41 .. isize::MAX-len, one child process each) must panic or die of allocation failure, never return. Cells as in C01.",
@@ -83,6 +83,13 @@ def e1_jobs(prop, tier, seed):
         for k, j in enumerate(js):
             # parity modes spread over the shards; 'packed' = no red zones, buffers placed back to back
             j.argv += ["--parity", ["mixed", "odd", "even", "packed"][k % 4]]
+        jobs += js
+    # short histories (start state + 3..6 ops)
+    sr, sd = (15000, 3000) if quick else (300000, 60000)
+    for bname, cnt in (("rel", sr), ("dbg", sd)):
+        js = seq_jobs(bname, "walk", seed + 17, n, ["--short", "--count", str(cnt)] + base, "short-" + bname, crash=crash, timeout=1500)
+        for k, j in enumerate(js):
+            j.argv += ["--parity", ["odd", "mixed", "packed", "even"][k % 4]]
         jobs += js
     # ASan (+LSan) on the same seeds
     if c["asan"]:
